@@ -1,16 +1,20 @@
 /-
-  C16 — source tie, the loader: the oracle for `load_generic_profile_from_hdf5`, `get_klass_args`, `decode_string_array`.
+  C16 — source tie, the loader: the oracle for `load_generic_profile_from_hdf5`, `get_klass_args`, `decode_string_array`
+  and the per-component loaders (`load_temperature_from_hdf5`, …, `load_chemistry_from_hdf5`, `load_model_from_hdf5`).
 
-  Objects: an open HDF5 group `h5 ch` (`ch` = its entries as `Output.Node`s), a dataset / sub-group handle `node n`
-  (`loc[name]`), what `ds[()]` returns — a number / numeric array for a numeric dataset (`Output.load`), a `bytes` object
-  for a variable-length string (`bytes s`, `.decode()` gives the string back), an array of fixed-width byte strings
-  (`sarr rows`: `isinstance(·, np.ndarray)`, `dtype.type is np.bytes_`, iterating gives its rows `srow r`, `row[0]` the
-  cell `bytes r`) —, the class `class_for_name` finds for a stored type string (`klass nm kws`: name and constructor
-  keywords) with `klass.__init__` / its argspec, the modules `np` and `inspect`.  What the model leaves open (what calling
-  the class returns, the parameters without default) is the `LWorld`.
+  Objects: an open HDF5 group `h5 ch` (`ch` = its entries as `Output.Node`s; `loc[name]` of a sub-group is again such a
+  group object, of a dataset a dataset handle `node n`), what `ds[()]` returns — a number / numeric array for a numeric
+  dataset (`Output.load`), a `bytes` object for a variable-length string (`bytes s`, `.decode()` gives the string back), an
+  array of fixed-width byte strings (`sarr rows`: `isinstance(·, np.ndarray)`, `dtype.type is np.bytes_`, iterating gives
+  its rows `srow r`, `row[0]` the cell `bytes r`) —, the class `class_for_name` finds for a type string (`klass nm kws`:
+  name and constructor keywords; the string may be the stored `bytes` or a `str` the caller passes) with `klass.__init__` /
+  its argspec, the modules `np` and `inspect`, the class `h5py.Group`, and the objects the constructor calls return
+  (`inst i`).  What the model leaves open (what calling a class returns, the parameters without default, which classes
+  an object is an instance of, the data attributes of a constructed object) is the `LWorld`.
+  The monad is `Dyn.Eff (LLog α)`: the state is the log of the method calls the loader makes ON the objects it constructed
+  (`chemistry.addGas(gas)`, `model.add_contribution(c)`): `(object, method, arguments)` in call order.
 -/
-import TaurexModel.Gen.SrcC16
-import TaurexModel.Output
+import Proofs.C16SrcStore
 set_option linter.unusedSectionVars false
 set_option linter.unusedVariables false
 set_option linter.unusedSimpArgs false
@@ -36,6 +40,17 @@ inductive LObj (α : Type) where
   | init (kws : List String)
   | argspec (kws : List String)
   | fn (name : String)
+  /-- an object a constructor call returned (identified by a number the world chooses) -/
+  | inst (id : Nat)
+  /-- the class `h5py.Group` -/
+  | h5Group
+  /-- an open `h5py.File` (its root group's entries); entering it gives the root group -/
+  | file (root : List (String × Node α))
+  /-- a 1-D float array (what `dataset[...]` returns for a 1-D float dataset), a stack of rows (`np.vstack`) and its
+      transpose (`.T`) -/
+  | vec (l : List α)
+  | mat (rows : List (List α))
+  | matT (rows : List (List α))
 
 /-- identity of the singletons the code compares with `is` -/
 instance {α : Type} : BEq (LObj α) where
@@ -48,7 +63,9 @@ instance {α : Type} : BEq (LObj α) where
     | _, _ => false
 
 abbrev LV (α : Type) := Dyn.Val α (LObj α)
-abbrev LM := Except Exc
+/-- what the loader did to the objects it constructed: (object, method, arguments) in call order -/
+abbrev LLog (α : Type) := List (Nat × String × List (LV α))
+abbrev LM (α : Type) := Dyn.Eff (LLog α)
 
 section
 variable {α : Type}
@@ -74,28 +91,49 @@ def isGroup : Node α → Bool
   | .group _ => true
   | _ => false
 
+/-- `loc[name]`: a sub-group is again a group object, a dataset a dataset handle -/
+def nodeObj : Node α → LObj α
+  | .group ch => .h5 ch
+  | n => .node n
+
 structure LWorld (α : Type) where
   enc : List Nat → String
+  dec : String → List Nat
   /-- the class of a stored type string: its constructor keywords -/
   klassOf : List Nat → Option (List String)
   /-- the leading entries of an argspec's `args` -/
   argsPre : List String → List (LV α)
   /-- constructing the component -/
-  call : LObj α → List (LV α) → List (String × LV α) → LM (LV α)
+  call : LObj α → List (LV α) → List (String × LV α) → LM α (LV α)
+  /-- `isinstance(v, C)` for the class the code imports under the name `C` -/
+  isA : LV α → String → Bool
+  /-- a data attribute of a constructed object -/
+  attrOf : Nat → String → Option (LV α)
+  /-- the file a path names (`h5py.File(path, 'r')`); `none`: it cannot be opened -/
+  fileOf : String → Option (List (String × Node α))
+  /-- what numpy returns for `10000/array` and the module function `wnwidth_to_wlwidth` for two arrays -/
+  div10000 : List α → List α
+  wlwidth : List α → List α → List α
 
-def LWorld.ext (w : LWorld α) : Ext LM α (LObj α) where
+def LWorld.ext (w : LWorld α) : Ext (LM α) α (LObj α) where
   global name :=
-    if name = "np" then .ok (.obj .np) else if name = "inspect" then .ok (.obj .inspect) else .ok (.obj (.fn name))
+    if name = "np" then pure (.obj .np) else if name = "inspect" then pure (.obj .inspect) else pure (.obj (.fn name))
   getattr o name :=
     match o with
     | .np =>
-      if name = "ndarray" then .ok (.obj .npNdarray) else if name = "bytes_" then .ok (.obj .npBytes)
-      else .error .AttributeError
-    | .sarr _ => if name = "dtype" then .ok (.obj (.dtype true)) else .error .AttributeError
-    | .nd _ => if name = "dtype" then .ok (.obj (.dtype false)) else .error .AttributeError
-    | .dtype b => if name = "type" then .ok (.obj (if b then .npBytes else .npOther)) else .error .AttributeError
-    | .klass _ kws => if name = "__init__" then .ok (.obj (.init kws)) else .error .AttributeError
-    | _ => .error .AttributeError
+      if name = "ndarray" then pure (.obj .npNdarray) else if name = "bytes_" then pure (.obj .npBytes)
+      else throw .AttributeError
+    | .sarr _ => if name = "dtype" then pure (.obj (.dtype true)) else throw .AttributeError
+    | .nd _ => if name = "dtype" then pure (.obj (.dtype false)) else throw .AttributeError
+    | .dtype b => if name = "type" then pure (.obj (if b then .npBytes else .npOther)) else throw .AttributeError
+    | .klass _ kws => if name = "__init__" then pure (.obj (.init kws)) else throw .AttributeError
+    | .fn m => if m = "h5py" ∧ name = "Group" then pure (.obj .h5Group) else throw .AttributeError
+    | .mat rows => if name = "T" then pure (.obj (.matT rows)) else throw .AttributeError
+    | .inst i =>
+      match w.attrOf i name with
+      | some v => pure v
+      | none => throw .AttributeError
+    | _ => throw .AttributeError
   call o args kw :=
     match o with
     | .fn name =>
@@ -103,63 +141,104 @@ def LWorld.ext (w : LWorld α) : Ext LM α (LObj α) where
         match args with
         | [.obj (.bytes nm)] =>
           match w.klassOf nm with
-          | some kws => .ok (.obj (.klass nm kws))
-          | none => .error .Exception
-        | _ => .error .Exception
+          | some kws => pure (.obj (.klass nm kws))
+          | none => throw .Exception
+        | [.str s] =>
+          match w.klassOf (w.dec s) with
+          | some kws => pure (.obj (.klass (w.dec s) kws))
+          | none => throw .Exception
+        | _ => throw .Exception
+      else if name = "wnwidth_to_wlwidth" then
+        match args with
+        | [.obj (.vec wn), .obj (.vec wd)] => pure (.obj (.vec (w.wlwidth wn wd)))
+        | _ => throw .TypeError
       else w.call o args kw
     | _ => w.call o args kw
   method o name args _ :=
     match o with
-    | .h5 ch => if name = "keys" then .ok (.list (ch.map (fun e => .str e.1))) else .error .AttributeError
-    | .bytes s => if name = "decode" then .ok (.str (w.enc s)) else .error .AttributeError
+    | .h5 ch => if name = "keys" then pure (.list (ch.map (fun e => .str e.1))) else throw .AttributeError
+    | .bytes s => if name = "decode" then pure (.str (w.enc s)) else throw .AttributeError
     | .inspect =>
       if name = "getfullargspec" then
         match args with
-        | [.obj (.init kws)] => .ok (.obj (.argspec kws))
-        | _ => .error .TypeError
-      else .error .AttributeError
-    | _ => .error .AttributeError
+        | [.obj (.init kws)] => pure (.obj (.argspec kws))
+        | _ => throw .TypeError
+      else throw .AttributeError
+    | .inst i => fun s => (.ok .none, s ++ [(i, name, args)])
+    | .fn m =>
+      if m = "h5py" ∧ name = "File" then
+        match args with
+        | [.str path, .str "r"] =>
+          match w.fileOf path with
+          | some root => pure (.obj (.file root))
+          | none => throw .OSError
+        | _ => throw .TypeError
+      else throw .AttributeError
+    | .file root =>
+      if name = "__enter__" then pure (.obj (.h5 root))
+      else if name = "__exit__" then pure .none          -- closes the file; never suppresses an exception
+      else throw .AttributeError
+    | .np =>
+      if name = "vstack" then
+        match args with
+        | [.list [.obj (.vec a), .obj (.vec b), .obj (.vec c), .obj (.vec d)]] => pure (.obj (.mat [a, b, c, d]))
+        | _ => throw .ValueError
+      else throw .AttributeError
+    | _ => throw .AttributeError
   isinst v o :=
     match o, v with
     | .npNdarray, .obj (.nd _) => true
     | .npNdarray, .obj (.sarr _) => true
+    | .h5Group, .obj (.h5 _) => true
+    | .fn name, v => w.isA v name
     | _, _ => false
   iter o :=
     match o with
-    | .sarr rows => .ok (rows.map (fun r => .obj (.srow r)))
-    | _ => .error .TypeError
-  truthy _ := .ok true
+    | .sarr rows => pure (rows.map (fun r => .obj (.srow r)))
+    | .node (.sfix _ rows) => pure (rows.map (fun r => .obj (.srow r)))      -- iterating the h5py dataset itself
+    | _ => throw .TypeError
+  truthy _ := pure true
   op name args :=
     if name = "getitem" then
       match args with
       | [.obj (.h5 ch), .str k] =>
         match ch.lookup k with
-        | some n => .ok (.obj (.node n))
-        | none => .error .KeyError
-      | [.obj (.node n), .tuple []] => .ok (rawOf w.enc n)
-      | [.obj (.srow r), .int 0] => .ok (.obj (.bytes r))
-      | _ => .error .TypeError
+        | some n => pure (.obj (nodeObj n))
+        | none => throw .KeyError
+      | [.obj (.node n), .tuple []] => pure (rawOf w.enc n)
+      | [.obj (.srow r), .int 0] => pure (.obj (.bytes r))
+      | _ => throw .TypeError
     else if name = "getslice" then
       match args with
       | [.obj (.argspec kws), .none, .int 4] =>
-        .ok (.tuple [.list (w.argsPre kws ++ kws.map .str), .none, .none,
+        pure (.tuple [.list (w.argsPre kws ++ kws.map .str), .none, .none,
                      if kws.isEmpty then .none else .tuple (kws.map (fun _ => .none))])
-      | _ => .error .TypeError
-    else if name = "method:decode" then .error .AttributeError     -- no built-in value but `bytes` has `.decode`
-    else .error .TypeError
+      | _ => throw .TypeError
+    else if name = "method:decode" then throw .AttributeError     -- no built-in value but `bytes` has `.decode`
+    else if name = "getitem[...]" then
+      match args with
+      | [.obj (.node (.num ⟨[_], .floats l⟩))] => pure (.obj (.vec l))
+      | _ => throw .TypeError
+    else if name = "/" then
+      match args with
+      | [.int 10000, .obj (.vec l)] => pure (.obj (.vec (w.div10000 l)))
+      | _ => throw .TypeError
+    else throw .TypeError
   parseFloat _ := none
 
 /-- keyword arguments for the constructor -/
 def embKwL (enc : List Nat → String) (c : List (String × Value α)) : List (String × LV α) :=
   c.map (fun kv => (kv.1, embLV enc kv.2))
 
-@[simp] theorem l_pure_ok {β : Type} (x : β) : (pure x : LM β) = .ok x := rfl
-@[simp] theorem l_throw_err {β : Type} (e : Exc) : (throw e : LM β) = .error e := rfl
-@[simp] theorem l_bind_ok {β γ : Type} (x : β) (f : β → LM γ) : ((Except.ok x : LM β) >>= f) = f x := rfl
-@[simp] theorem l_bind_err {β γ : Type} (e : Exc) (f : β → LM γ) : ((Except.error e : LM β) >>= f) = .error e := rfl
-@[simp] theorem l_bind_ok_right {β : Type} (x : LM β) : (x >>= fun a => Except.ok a) = x := by cases x <;> rfl
-@[simp] theorem l_try_ok {β : Type} (x : β) (h : Exc → LM β) : tryCatch (Except.ok x : LM β) h = .ok x := rfl
-@[simp] theorem l_try_err {β : Type} (e : Exc) (h : Exc → LM β) : tryCatch (Except.error e : LM β) h = h e := rfl
+@[simp] theorem l_bind_ok {β γ : Type} (x : β) (f : β → LM α γ) : ((pure x : LM α β) >>= f) = f x := rfl
+@[simp] theorem l_bind_err {β γ : Type} (e : Exc) (f : β → LM α γ) : ((throw e : LM α β) >>= f) = throw e := rfl
+@[simp] theorem l_bind_ok_right {β : Type} (x : LM α β) : (x >>= fun a => pure a) = x := by
+  funext s
+  rw [eff_bind]
+  rcases x s with ⟨r, s'⟩
+  cases r <;> rfl
+@[simp] theorem l_try_ok {β : Type} (x : β) (h : Exc → LM α β) : tryCatch (pure x : LM α β) h = pure x := rfl
+@[simp] theorem l_try_err {β : Type} (e : Exc) (h : Exc → LM α β) : tryCatch (throw e : LM α β) h = h e := rfl
 
 /-! ## lemmas -/
 
@@ -178,32 +257,47 @@ theorem slice_tail' {β : Type} (pre names : List β) (hn : names ≠ []) :
   simp only [sliceList, List.length_append, clip_neg' _ _ this]
   simp
 
-/-- the dictionary of keyword arguments built so far -/
-def encD (w : LWorld α) (acc : List (String × Value α)) : LV α :=
-  .dict (acc.map (fun kv => (.str kv.1, embLV w.enc kv.2)))
+/-- the pre-made keyword arguments (`premade_dict`: objects) as dictionary entries -/
+def preD (pre : List (String × LV α)) : List (LV α × LV α) := pre.map (fun kv => (.str kv.1, kv.2))
 
-theorem dictSet_fresh (w : LWorld α) (acc : List (String × Value α)) (k : String) (v : LV α)
-    (h : k ∉ acc.map (·.1)) :
-    Dyn.dictSet (acc.map (fun kv => ((Dyn.Val.str kv.1 : LV α), embLV w.enc kv.2))) (.str k) v
-      = acc.map (fun kv => ((Dyn.Val.str kv.1 : LV α), embLV w.enc kv.2)) ++ [(.str k, v)] := by
-  induction acc with
-  | nil => rfl
+/-- the dictionary of keyword arguments built so far: the pre-made ones, then the loaded ones -/
+def encD (w : LWorld α) (pre : List (String × LV α)) (acc : List (String × Value α)) : LV α :=
+  .dict (preD pre ++ acc.map (fun kv => (.str kv.1, embLV w.enc kv.2)))
+
+theorem dictSet_fresh (w : LWorld α) (pre : List (String × LV α)) (acc : List (String × Value α)) (k : String)
+    (v : LV α) (hp : k ∉ pre.map (·.1)) (h : k ∉ acc.map (·.1)) :
+    Dyn.dictSet (preD pre ++ acc.map (fun kv => ((Dyn.Val.str kv.1 : LV α), embLV w.enc kv.2))) (.str k) v
+      = preD pre ++ acc.map (fun kv => ((Dyn.Val.str kv.1 : LV α), embLV w.enc kv.2)) ++ [(.str k, v)] := by
+  induction pre with
+  | nil =>
+    simp only [preD, List.map_nil, List.nil_append]
+    induction acc with
+    | nil => rfl
+    | cons x t ih =>
+      have hx : x.1 ≠ k := fun he => h (by simp [he])
+      have ht : k ∉ t.map (·.1) := fun hm => h (by simp [hm])
+      have hb : (x.1 == k) = false := by simp [hx]
+      simp [Dyn.dictSet, Dyn.Val.beq, hb, ih ht]
   | cons x t ih =>
-    have hx : x.1 ≠ k := fun he => h (by simp [he])
-    have ht : k ∉ t.map (·.1) := fun hm => h (by simp [hm])
+    have hx : x.1 ≠ k := fun he => hp (by simp [he])
+    have ht : k ∉ t.map (·.1) := fun hm => hp (by simp [hm])
     have hb : (x.1 == k) = false := by simp [hx]
-    simp [Dyn.dictSet, Dyn.Val.beq, hb, ih ht]
+    have := ih ht
+    simp only [preD] at this
+    simp [preD, Dyn.dictSet, Dyn.Val.beq, hb, this]
 
 /-- the keyword-collecting loop of the loader, given what one pass does -/
-theorem forM_load (w : LWorld α) (ch : List (String × Node α)) (all : List String) (body : LV α → LV α → LM (LV α))
-    (hb : ∀ acc kw, kw ∈ all → body (encD w acc) (.str kw) =
+theorem forM_load (w : LWorld α) (ch : List (String × Node α)) (all : List String) (pre : List (String × LV α))
+    (body : LV α → LV α → LM α (LV α))
+    (hb : ∀ acc kw, kw ∈ all → body (encD w pre acc) (.str kw) =
       match ch.lookup kw with
-      | some n => Dyn.setItem w.ext (encD w acc) (.str kw) (embLV w.enc (load n))
-      | none => .ok (encD w acc)) :
+      | some n => Dyn.setItem w.ext (encD w pre acc) (.str kw) (embLV w.enc (load n))
+      | none => pure (encD w pre acc))
+    (hpk : ∀ kw ∈ all, (ch.lookup kw).isSome = true → kw ∉ pre.map (·.1)) :
     ∀ (rest : List String) (acc : List (String × Value α)), rest.Nodup → (∀ k ∈ rest, k ∈ all) →
       (∀ k ∈ acc.map (·.1), k ∉ rest) →
-      Dyn.forM (rest.map (fun k => (Dyn.Val.str k : LV α))) (encD w acc) body
-        = .ok (encD w (acc ++ loadKwargs ch rest))
+      Dyn.forM (rest.map (fun k => (Dyn.Val.str k : LV α))) (encD w pre acc) body
+        = pure (encD w pre (acc ++ loadKwargs ch rest))
   | [], acc, _, _, _ => by simp [Dyn.forM, loadKwargs]
   | kw :: rest, acc, hn, hall, hfresh => by
     have hn' : rest.Nodup := (List.nodup_cons.mp hn).2
@@ -212,12 +306,13 @@ theorem forM_load (w : LWorld α) (ch : List (String × Node α)) (all : List St
     cases hl : ch.lookup kw with
     | none =>
       simp only [l_bind_ok]
-      exact forM_load w ch all body hb rest acc hn' (fun k hk => hall k (List.mem_cons_of_mem _ hk))
+      exact forM_load w ch all pre body hb hpk rest acc hn' (fun k hk => hall k (List.mem_cons_of_mem _ hk))
         (fun k hk hr => hfresh k hk (List.mem_cons_of_mem _ hr))
     | some n =>
       have hk : kw ∉ acc.map (·.1) := fun hm => hfresh kw hm List.mem_cons_self
-      simp only [encD, Dyn.setItem, Dyn.Val.hashable, if_true, l_pure_ok, l_bind_ok, dictSet_fresh w acc kw _ hk]
-      have := forM_load w ch all body hb rest (acc ++ [(kw, load n)]) hn'
+      have hp : kw ∉ pre.map (·.1) := hpk kw (hall kw List.mem_cons_self) (by rw [hl]; rfl)
+      simp only [encD, Dyn.setItem, Dyn.Val.hashable, if_true, l_bind_ok, dictSet_fresh w pre acc kw _ hp hk]
+      have := forM_load w ch all pre body hb hpk rest (acc ++ [(kw, load n)]) hn'
         (fun k hk => hall k (List.mem_cons_of_mem _ hk))
         (by
           intro k hk hr
@@ -229,11 +324,10 @@ theorem forM_load (w : LWorld α) (ch : List (String × Node α)) (all : List St
         List.nil_append] at this ⊢
       exact this
 
-
 theorem contains_keys (w : LWorld α) (ch : List (String × Node α)) (kw : String) :
     Dyn.contains w.ext (Dyn.Val.str kw) (Dyn.Val.list (ch.map (fun e => (Dyn.Val.str e.1 : LV α))))
-      = .ok (ch.lookup kw).isSome := by
-  simp only [Dyn.contains, l_pure_ok, List.any_map, Function.comp_def, Dyn.Val.beq]
+      = pure (ch.lookup kw).isSome := by
+  simp only [Dyn.contains, List.any_map, Function.comp_def, Dyn.Val.beq]
   congr 1
   induction ch with
   | nil => rfl
@@ -246,6 +340,236 @@ theorem contains_keys (w : LWorld α) (ch : List (String × Node α)) (kw : Stri
       have h2 : (kw == k) = false := by simp [Ne.symm h]
       simp [h1, h2]
 
+theorem starStar_pre (w : LWorld α) (pre : List (String × LV α)) (c : List (String × Value α)) :
+    (Dyn.starStar (Dyn.Val.dict (preD pre ++ c.map (fun kv => ((Dyn.Val.str kv.1 : LV α), embLV w.enc kv.2)))) : LM α _)
+      = pure (pre ++ embKwL w.enc c) := by
+  simp only [Dyn.starStar, embKwL, preD]
+  induction pre with
+  | nil =>
+    simp only [List.map_nil, List.nil_append]
+    induction c with
+    | nil => rfl
+    | cons kv t ih =>
+      simp only [List.map_cons, Dyn.mapM, l_bind_ok] at ih ⊢
+      rw [ih]; rfl
+  | cons kv t ih =>
+    simp only [List.map_cons, List.cons_append, Dyn.mapM, l_bind_ok] at ih ⊢
+    rw [ih]; rfl
+
+/-- how `load_generic_profile_from_hdf5` finds the class name: `profile_type=None` — the stored string under
+    `identifier` —, or the `profile_type` the caller passes -/
+def TypeFrom (w : LWorld α) (ch : List (String × Node α)) (identifier pt : LV α) (nm : List Nat) : Prop :=
+  (pt = .none ∧ ∃ k, identifier = .str k ∧ ch.lookup k = some (.vstr nm)) ∨ (∃ s, pt = .str s ∧ w.dec s = nm)
+
+/-- the `premade_dict` argument: `None`, or a non-empty dictionary of string-keyed entries -/
+def Premade (premade : LV α) (pre : List (String × LV α)) : Prop :=
+  (premade = .none ∧ pre = []) ∨ (premade = .dict (preD pre) ∧ pre ≠ [])
+
+/-- `loc[name]` for a stored sub-group is the group object of its entries -/
+theorem getItem_group (w : LWorld α) (top ch : List (String × Node α)) (k : String)
+    (h : top.lookup k = some (.group ch)) :
+    Dyn.getItem w.ext (Dyn.Val.obj (LObj.h5 top)) (Dyn.Val.str k) = pure (.obj (.h5 ch)) := by
+  simp only [Dyn.getItem, LWorld.ext, if_true, h, nodeObj]
+
+/-- a component group as `load_generic_profile_from_hdf5` needs it: the type string names a class whose constructor
+    keywords are distinct and none of them is stored as a sub-group -/
+structure Reloadable (w : LWorld α) (ch : List (String × Node α)) (nm : List Nat) (kws : List String) : Prop where
+  klass : w.klassOf nm = some kws
+  nodup : kws.Nodup
+  flat : ∀ kw ∈ kws, ∀ n, ch.lookup kw = some n → isGroup n = false
+
+/-! ### the chemistry loader -/
+
+theorem eff_bind_assoc {σ β γ δ : Type} (x : Eff σ β) (f : β → Eff σ γ) (g : γ → Eff σ δ) :
+    ((x >>= f) >>= g) = x >>= fun a => f a >>= g := by
+  funext s
+  rw [eff_bind, eff_bind, eff_bind]
+  rcases x s with ⟨r, s'⟩
+  cases r with
+  | error e => rfl
+  | ok a => simp only [eff_bind]
+
+/-- `forM` with pointwise equal bodies -/
+theorem forM_congr {m : Type → Type} [Monad m] {σ ι : Type} (f g : σ → ι → m σ) :
+    ∀ (l : List ι) (s : σ), (∀ x ∈ l, ∀ st, f st x = g st x) → Dyn.forM l s f = Dyn.forM l s g
+  | [], _, _ => rfl
+  | x :: xs, s, h => by
+    simp only [Dyn.forM, h x List.mem_cons_self]
+    congr 1
+    funext s'
+    exact forM_congr f g xs s' (fun y hy st => h y (List.mem_cons_of_mem _ hy) st)
+
+/-- the reload of the gas profile stored in the group `mol` of the chemistry group: the class of its stored `gas_type`
+    called with `Output.loadKwargs` (what `load_generic_profile_from_hdf5` collects); `KeyError` when there is no such
+    entry (`loc[molecule]`) -/
+def gasCall (w : LWorld α) (chem : List (String × Node α)) (mol : String) : LM α (LV α) :=
+  match chem.lookup mol with
+  | some (.group gch) =>
+    match gch.lookup "gas_type" with
+    | some (.vstr gnm) =>
+      match w.klassOf gnm with
+      | some gkws => w.call (.klass gnm gkws) [] (embKwL w.enc (loadKwargs gch gkws))
+      | none => throw .Exception
+    | _ => throw .KeyError
+  | _ => throw .KeyError
+
+/-- the entry `mol` of the chemistry group is absent, or a gas group the loader accepts -/
+def GasGood (w : LWorld α) (chem : List (String × Node α)) (mol : String) : Prop :=
+  chem.lookup mol = none ∨ ∃ gch gnm gkws, chem.lookup mol = some (.group gch) ∧
+    gch.lookup "gas_type" = some (.vstr gnm) ∧ Reloadable w gch gnm gkws
+
+theorem getItem_h5 (w : LWorld α) (ch : List (String × Node α)) (k : String) :
+    Dyn.getItem w.ext (Dyn.Val.obj (LObj.h5 ch)) (Dyn.Val.str k)
+      = match ch.lookup k with | some n => pure (.obj (nodeObj n)) | none => throw .KeyError := by
+  simp only [Dyn.getItem, LWorld.ext]; rfl
+
+/-- one pass of the loops of `load_chemistry_from_hdf5`: a stored gas name that is not one of the fill gases of the
+    reloaded chemistry is reloaded from its group and added -/
+def addGasStep (w : LWorld α) (chem : List (String × Node α)) (chemistry : LV α) (mol : String) : LM α Unit := do
+  let fill ← Dyn.getAttr w.ext chemistry "_fill_gases"
+  let c ← Dyn.contains w.ext (.str mol) fill
+  if !c then do
+    let g ← gasCall w chem mol
+    let _ ← Dyn.callMethod w.ext chemistry "addGas" [g] []
+    pure ()
+  else pure ()
+
+/-- `for mol in names: …` -/
+def addGases (w : LWorld α) (chem : List (String × Node α)) (chemistry : LV α) (rows : List (List Nat)) : LM α Unit :=
+  Dyn.forM (rows.map w.enc) () (fun _ mol => addGasStep w chem chemistry mol)
+
+/-- what `load_chemistry_from_hdf5` does with the group `Chemistry` (`chem`): reload the chemistry itself, then — for a
+    `TaurexChemistry` — every stored active and inactive gas that is not a fill gas -/
+def chemistrySpec (w : LWorld α) (chem : List (String × Node α)) (nm : List Nat) (kws : List String)
+    (act inact : List (List Nat)) : LM α (LV α) := do
+  let chemistry ← w.call (.klass nm kws) [] (embKwL w.enc (loadKwargs chem kws))
+  if w.isA chemistry "TaurexChemistry" then do
+    addGases w chem chemistry act
+    addGases w chem chemistry inact
+    pure chemistry
+  else pure chemistry
+
+theorem forM_map {m : Type → Type} [Monad m] {σ ι κ : Type} (g : ι → κ) (f : σ → κ → m σ) :
+    ∀ (l : List ι) (s : σ), Dyn.forM (l.map g) s f = Dyn.forM l s (fun st x => f st (g x))
+  | [], _ => rfl
+  | x :: xs, s => by
+    simp only [List.map_cons, Dyn.forM]
+    congr 1
+    funext s'
+    exact forM_map g f xs s'
+
+/-! ### the model loader -/
+
+theorem lookup_of_mem_nodup {β : Type} : ∀ {l : List (String × β)} {k : String} {v : β},
+    (l.map (·.1)).Nodup → (k, v) ∈ l → l.lookup k = some v
+  | [], _, _, _, h => by cases h
+  | (k', v') :: t, k, v, hn, h => by
+    simp only [List.map_cons, List.nodup_cons] at hn
+    simp only [List.mem_cons, Prod.mk.injEq] at h
+    rcases h with ⟨rfl, rfl⟩ | h
+    · simp [List.lookup_cons]
+    · have hne : k ≠ k' := by
+        intro he; subst he
+        exact hn.1 (List.mem_map.mpr ⟨(k, v), h, rfl⟩)
+      have : (k == k') = false := by simpa using hne
+      simp only [List.lookup_cons, this]
+      exact lookup_of_mem_nodup hn.2 h
+
+/-- the reload of the contribution stored in the group `key` of `Contributions`: the class NAMED LIKE THE GROUP called with
+    `Output.loadKwargs` of the group -/
+def contribCall (w : LWorld α) (contribs : List (String × Node α)) (key : String) : LM α (LV α) :=
+  match contribs.lookup key with
+  | some (.group cch) =>
+    match w.klassOf (w.dec key) with
+    | some ckws => w.call (.klass (w.dec key) ckws) [] (embKwL w.enc (loadKwargs cch ckws))
+    | none => throw .Exception
+  | _ => throw .KeyError
+
+/-- one pass of the contribution loop of `load_model_from_hdf5`: an entry of `Contributions` that is a group is reloaded and
+    added to the model; a dataset is skipped -/
+def contribStep (w : LWorld α) (contribs : List (String × Node α)) (model : LV α) (e : String × Node α) : LM α Unit :=
+  match e.2 with
+  | .group _ => do
+    let c ← contribCall w contribs e.1
+    let _ ← Dyn.callMethod w.ext model "add_contribution" [c] []
+    pure ()
+  | _ => pure ()
+
+/-- the groups of a stored model that `load_model_from_hdf5` reads: the entries of `ModelParameters` -/
+structure ModelFile (w : LWorld α) (mp : List (String × Node α)) where
+  chem : List (String × Node α)
+  cnm : List Nat
+  ckws : List String
+  wa : Nat
+  wi : Nat
+  act : List (List Nat)
+  inact : List (List Nat)
+  press : List (String × Node α)
+  pnm : List Nat
+  pkws : List String
+  temp : List (String × Node α)
+  tnm : List Nat
+  tkws : List String
+  planet : List (String × Node α)
+  plnm : List Nat
+  plkws : List String
+  star : List (String × Node α)
+  snm : List Nat
+  skws : List String
+  mnm : List Nat
+  mkws : List String
+  contribs : List (String × Node α)
+  hchem : mp.lookup "Chemistry" = some (.group chem)
+  hctype : chem.lookup "chemistry_type" = some (.vstr cnm)
+  hcr : Reloadable w chem cnm ckws
+  hact : chem.lookup "active_gases" = some (.sfix wa act)
+  hinact : chem.lookup "inactive_gases" = some (.sfix wi inact)
+  hgas : ∀ r ∈ act ++ inact, GasGood w chem (w.enc r)
+  hpress : mp.lookup "Pressure" = some (.group press)
+  hptype : press.lookup "pressure_type" = some (.vstr pnm)
+  hpr : Reloadable w press pnm pkws
+  htemp : mp.lookup "Temperature" = some (.group temp)
+  httype : temp.lookup "temperature_type" = some (.vstr tnm)
+  htr : Reloadable w temp tnm tkws
+  hplanet : mp.lookup "Planet" = some (.group planet)
+  hplnm : w.dec "Planet" = plnm
+  hplr : Reloadable w planet plnm plkws
+  hstar : mp.lookup "Star" = some (.group star)
+  hstype : star.lookup "star_type" = some (.vstr snm)
+  hsr : Reloadable w star snm skws
+  hmtype : mp.lookup "model_type" = some (.vstr mnm)
+  hmr : Reloadable w mp mnm mkws
+  hmpk : ∀ kw ∈ mkws, (mp.lookup kw).isSome = true →
+    kw ∉ ["planet", "star", "chemistry", "temperature_profile", "pressure_profile"]
+  hcontribs : mp.lookup "Contributions" = some (.group contribs)
+  hcnodup : (contribs.map (·.1)).Nodup
+  hcgood : ∀ key cch, (key, Node.group cch) ∈ contribs → ∃ kws, Reloadable w cch (w.dec key) kws
+
+/-- what `load_model_from_hdf5` does with the group `ModelParameters`: the five components reloaded (chemistry with its
+    gases, pressure, temperature, planet, star), the model class of the stored `model_type` called with them under the
+    keywords `planet, star, chemistry, temperature_profile, pressure_profile` followed by its own stored keywords, then
+    every sub-group of `Contributions` reloaded by the class named like it and added, in file order -/
+def modelSpec (w : LWorld α) (mp : List (String × Node α)) (f : ModelFile w mp) : LM α (LV α) := do
+  let chemistry ← chemistrySpec w f.chem f.cnm f.ckws f.act f.inact
+  let pressure ← w.call (.klass f.pnm f.pkws) [] (embKwL w.enc (loadKwargs f.press f.pkws))
+  let temperature ← w.call (.klass f.tnm f.tkws) [] (embKwL w.enc (loadKwargs f.temp f.tkws))
+  let planet ← w.call (.klass f.plnm f.plkws) [] (embKwL w.enc (loadKwargs f.planet f.plkws))
+  let star ← w.call (.klass f.snm f.skws) [] (embKwL w.enc (loadKwargs f.star f.skws))
+  let model ← w.call (.klass f.mnm f.mkws) []
+    ([("planet", planet), ("star", star), ("chemistry", chemistry), ("temperature_profile", temperature),
+      ("pressure_profile", pressure)] ++ embKwL w.enc (loadKwargs mp f.mkws))
+  let _ ← Dyn.forM f.contribs () (fun _ e => contribStep w f.contribs model e)
+  pure model
+
+/-- a `with` block whose context manager never suppresses an exception (`__exit__` returns a false value) and whose body
+    is the computation `x`: what follows (`K`) continues with the body's result -/
+theorem with_noexit {σ β γ : Type} (x : Eff σ β) (K : Option β → Eff σ γ) :
+    ((tryCatch (x >>= fun a => pure (some a)) (fun e => (throw e : Eff σ (Option β)))) >>= K)
+      = x >>= fun a => K (some a) := by
+  funext s
+  simp only [eff_bind, eff_try]
+  rcases x s with ⟨r, s'⟩
+  cases r <;> rfl
 
 end
 
